@@ -237,6 +237,12 @@ def check_C20(A, R, tier):
             else:
                 R.ob("R20.1", "%s | %s | legal call is not rejected" % (name, sn), "APIError" not in (errs or set()),
                      detail="errors=%s" % sorted(errs or []), site=run.entry)
+    # R20.4: 'offered' is what the queries report: the reported sets hold exactly the jobs in the classes the events accept
+    # (a job taken out of a reported set while it stays in the accepted class can be acknowledged although it is not on offer)
+    pairing(A, R, "R20.4", C["Ready"], ("self", ready_f), "ready")
+    pairing(A, R, "R20.4c", C["CleanupOffered"], None, "cleanup", exclude=("self", ready_f), field=cleanup_f)
+    if C["RunningQ"] is None:
+        pairing(A, R, "R20.4r", C["Running"], ("self", C["RunningSetField"]), "running")
     # event_startup: a second start is rejected without effects
     s0 = A.initial_start_status()
     sruns = A.start_runs("event_startup")
@@ -414,6 +420,9 @@ def check_C17(A, R, tier):
             if not (v2 is not None and v2[0] == "fin" and set(v2[2]) == {(1,)}):
                 bad.append(A.sname(fs_))
         R.ob("R17.5", "is_finished | %s | all jobs finished => true" % sn, not bad, detail="not decided as true with every job in %s" % bad)
+    # ... and the converse: 'finished' only when every job is finished (the scan covers all jobs)
+    from rules_more import rule_finished_means_all
+    rule_finished_means_all(A, R, "R17.5")
     # with at least one unfinished job visited, the status is never advanced to its final value
     # (checked as: the only store to the start status in is_finished is dominated by the loop exit)
     # R17.6 start status typestate
@@ -525,6 +534,17 @@ def after_abort_processing(A, v):
     return cb != v["bb"] and ab.dominates(cb, v["bb"])
 
 
+def before_abort_processing(A, v):
+    """fact `v` lies in the abort entry point in front of the signal processing it starts, and every regular path from it leads
+    through that processing: when the call returns every job is finished (R10.1), and nothing outside can look in between"""
+    ab, r, cb = abort_entry(A)
+    if cb is None or v.get("fn") != ab.name or v.get("stack") or v["bb"] == cb:
+        return False
+    import rules_more
+    errs = rules_more.error_exit_blocks(A, ab) | rules_more.residual_blocks(ab)
+    return not (set(rules_more.returns_of(ab)) & ab.reachable(v["bb"], {cb} | (errs - {v["bb"]})))
+
+
 def bulk_ops(run, field):
     """operations that change a whole set field of the evaluator at once (clear, assignment, extend, unmodelled &mut use)"""
     out = [v for v in run.by_kind("store_self") if v["proj"][:1] == (("f", field),)]
@@ -537,13 +557,18 @@ def deferred_clear(A, field):
     ab, r, cb = abort_entry(A)
     if cb is None:
         return False
-    cl = [v for v in bulk_ops(r, field) if v.get("call") == "clear/sort" and v["fn"] == ab.name and not v.get("stack") and after_abort_processing(A, v)]
-    if not cl:
-        return False
     import rules_more
     errs = rules_more.error_exit_blocks(A, ab) | rules_more.residual_blocks(ab)
-    reach = ab.reachable(cb, set(v["bb"] for v in cl) | errs)
-    return not (set(rules_more.returns_of(ab)) & reach)
+    cl = [v for v in bulk_ops(r, field) if v.get("call") == "clear/sort" and v["fn"] == ab.name and not v.get("stack") and after_abort_processing(A, v)]
+    if cl:
+        reach = ab.reachable(cb, set(v["bb"] for v in cl) | errs)
+        if not (set(rules_more.returns_of(ab)) & reach):
+            return True
+    # ... or in front of it, on every path that leads to the processing
+    cl = [v for v in bulk_ops(r, field) if v.get("call") == "clear/sort" and v["fn"] == ab.name and not v.get("stack") and before_abort_processing(A, v)]
+    if cl:
+        return cb not in ab.reachable(0, set(v["bb"] for v in cl) | errs)
+    return False
 
 
 def pairing(A, R, rule, cls, target, what, exclude=None, field=None):
@@ -625,7 +650,7 @@ def pairing(A, R, rule, cls, target, what, exclude=None, field=None):
                 if kb in seenb:
                     continue
                 seenb.add(kb)
-                ok = after_abort_processing(A, v) and not (cls & Cp["Finished"])
+                ok = (after_abort_processing(A, v) or before_abort_processing(A, v)) and not (cls & Cp["Finished"])
                 R.ob(rule, "%s | the %s set is changed as a whole (%s) only where no job can be in the %s class"
                      % (short(v["fn"]), what, v.get("call") or v.get("kind") or "store/extend", what), ok,
                      detail="jobs in the %s class would silently drop out of (or appear in) the reported set" % what, site=A.site(v))
